@@ -5,7 +5,7 @@ UPDATE_ALL = [func("bt.core.StrategyBase.update", variant=v) for v in ("flat", "
 
 ID = "C03"
 META = {
-    "assumptions": ['A-REAL', 'A-COMM', 'A-T', 'A-IND', 'A-DATA-NONE', 'A-CYTHON', 'A-SOLVER', 'A-ENGINE'],
+    "assumptions": ['A-REAL', 'A-COMM', 'A-T', 'A-IND', 'A-CYTHON', 'A-SOLVER', 'A-ENGINE'],
     "explanation": "update proved to reset net flows / last value / last price exactly on a date change and to set price' = last_price*(1 + value/(last_value+net_flows) - 1) whenever it rewrites, to leave the price unchanged otherwise, and to raise ZeroDivisionError exactly on a zero base with non-zero value; adjust proved to add to net flows iff flow; trades proved never to touch net flows; algebraic lemmas (pure flow leaves the index, fees and P&L move it, scale invariance, first row 100) from the recurrence clause.",
 }
 MANIFEST_ENTRY = {
